@@ -383,6 +383,15 @@ RECIPES = {"bounded_case": r_bounded_case, "push_phase_shift": r_push_phase_shif
 
 def main():
     data = json.load(open(sys.argv[1]))
+    if data.get("replay_cmd") and "case" in data and not data.get("replay_spec"):
+        # a case of one of the bounded scripts (bounded/<script> --replay <file>): run it in this interpreter
+        import re, runpy
+        m = re.search(r"bounded/(\S+\.py)", data["replay_cmd"])
+        if m:
+            script = os.path.join(os.path.dirname(os.path.dirname(os.path.abspath(__file__))), "bounded", m.group(1))
+            sys.argv = [script, "--replay", os.path.abspath(sys.argv[1])]
+            runpy.run_path(script, run_name="__main__")
+            return
     spec = data.get("replay_spec")
     if not spec or spec.get("kind") not in RECIPES:
         print("no native recipe for this obligation")
